@@ -2,7 +2,7 @@
    Only statements here; proofs are [exact <lemma of Net/Proofs2.v>]. *)
 From Coq Require Import List NArith ZArith Permutation.
 From SF Require Import Base.Str Net.Model Net.Util Net.Proofs Net.Proofs2.
-From SF Require Tags.Model Gather.Model Gather.Proofs Loop.Model Loop.Proofs Net.Contracts Net.ContractsComb Net.MixedModel Net.MixedProofs Net.MixedProofs2 Net.MixedInst Net.SGNet Net.Contracts2 Net.MixedProofs5 Net.MixedComb Net.CombNet Net.CombNetCwl Net.CombNet2 Net.CombNetGen Net.CombNetCart.
+From SF Require Tags.Model Gather.Model Gather.Proofs Loop.Model Loop.Proofs Net.Contracts Net.ContractsComb Net.MixedModel Net.MixedProofs Net.MixedProofs2 Net.MixedInst Net.SGNet Net.Contracts2 Net.MixedBagsInst Net.MixedProofs5 Net.MixedComb Net.CombNet Net.CombNetCwl Net.CombNet2 Net.CombNetGen Net.CombNetCart.
 From SF Require Comb.Cart.
 From SF Require Comb.Model Comb.Flat Cwl.Network.
 Import ListNotations.
@@ -66,7 +66,10 @@ Proof. exact port_bags_agree. Qed.
    any two interleavings of arrivals — that end with every step terminated carry permutation-equal histories on
    every port.  Here the link between the operational network and the per-step statement is proved (a terminated
    step has consumed exactly the complete history of each input, whatever the interleaving).
-   _partial: the two machine-level hypotheses are not discharged here for GatherStep / combinators / loop output
+   The two machine-level hypotheses (b), (c) are asked only of logs satisfying an invariant [Good] of the network's
+   reachable states; C05_transformer_network_bags instantiates the theorem completely for networks of one-input
+   Transformers.
+   _partial: (b), (c) are not discharged here for GatherStep / combinators / loop output
    (C05_contract_* give them on shaped arrival lists in each model's vocabulary; turning "shaped" into an invariant
    of the network is not done), and steps that terminate early (a failing step; a multi-input Transformer ending at
    the first termination token) are excluded by the second hypothesis. *)
@@ -78,8 +81,18 @@ Theorem C05_mixed_bags_partial :
     Net.MixedModel.log_contract T spec s_ins s_nout outs done accept ->
     Net.MixedModel.mwf T spec s_ins s_nout win specs ->
     (forall k, k < length win -> exists d s, nth k win [] = d ++ [Net.MixedModel.E s] /\ Net.MixedModel.term_free_m T d) ->
-    (forall sp l, done sp l = true -> forall j, j < length (s_ins sp) -> Net.MixedModel.port_closed T j l = true) ->
-    (forall sp l1 l2, done sp l1 = true -> done sp l2 = true ->
+    (* [Good]: a property of the logs that occur in reachable states of THIS network; (b) and (c) are asked of such logs
+       only (asked of all logs they are false for real machines: a ScatterStep that met a non-list token, a combinator
+       that raised, terminate before their ports did) *)
+    forall Good : spec -> Net.MixedModel.log T -> Prop,
+    (forall ch st i sp l,
+       Net.MixedModel.mexec T spec s_ins outs done accept win specs (Net.MixedModel.minit T spec specs) ch = Some st ->
+       nth_error specs i = Some sp -> nth_error st i = Some l -> Good sp l) ->
+    (* (b) *)
+    (forall sp l, Good sp l -> done sp l = true ->
+       forall j, j < length (s_ins sp) -> Net.MixedModel.port_closed T j l = true) ->
+    (* (c) *)
+    (forall sp l1 l2, Good sp l1 -> Good sp l2 -> done sp l1 = true -> done sp l2 = true ->
        (forall j, j < length (s_ins sp) -> Permutation (Net.MixedModel.proj T j l1) (Net.MixedModel.proj T j l2)) ->
        forall j, Permutation (nth j (outs sp l1) []) (nth j (outs sp l2) [])) ->
     forall ch1 ch2 st1 st2,
@@ -90,6 +103,54 @@ Theorem C05_mixed_bags_partial :
         Permutation (Net.MixedModel.mcontent T spec outs win specs st1 p)
                     (Net.MixedModel.mcontent T spec outs win specs st2 p).
 Proof. exact Net.MixedProofs2.mixed_bags. Qed.
+
+(* C05_mixed_bags_partial INSTANTIATED, no machine hypothesis left: any network made of one-input Transformers (chains,
+   fan-out trees) over Gather.Model's tokens.  [Good] = "the step never read past a termination token", which holds
+   in every reachable state (network invariant); (b) holds because a Transformer is done exactly when it has consumed
+   its port's termination token; (c) because its outputs are the element-wise image of what it read. *)
+Theorem C05_transformer_network_bags :
+  forall (win : list (list Net.MixedInst.gmtok)) (specs : list Net.MixedInst.mspec),
+    Net.MixedModel.mwf Gather.Model.tok Net.MixedInst.mspec Net.MixedInst.ms_ins Net.MixedInst.ms_nout win specs ->
+    (forall k, k < length win ->
+       exists d s, nth k win [] = d ++ [Net.MixedModel.E s] /\ Net.MixedModel.term_free_m Gather.Model.tok d) ->
+    (forall sp, In sp specs -> Net.MixedBagsInst.is_xf sp) ->
+    forall ch1 ch2 st1 st2,
+      Net.MixedModel.mexec Gather.Model.tok Net.MixedInst.mspec Net.MixedInst.ms_ins Net.MixedInst.ms_outs
+        Net.MixedInst.ms_done Net.MixedInst.ms_accept win specs
+        (Net.MixedModel.minit Gather.Model.tok Net.MixedInst.mspec specs) ch1 = Some st1 ->
+      Net.MixedModel.mexec Gather.Model.tok Net.MixedInst.mspec Net.MixedInst.ms_ins Net.MixedInst.ms_outs
+        Net.MixedInst.ms_done Net.MixedInst.ms_accept win specs
+        (Net.MixedModel.minit Gather.Model.tok Net.MixedInst.mspec specs) ch2 = Some st2 ->
+      Net.MixedModel.all_done Gather.Model.tok Net.MixedInst.mspec Net.MixedInst.ms_done specs st1 ->
+      Net.MixedModel.all_done Gather.Model.tok Net.MixedInst.mspec Net.MixedInst.ms_done specs st2 ->
+      forall p, match p with SOut s _ => s < length specs | WIn k => k < length win end ->
+        Permutation (Net.MixedModel.mcontent Gather.Model.tok Net.MixedInst.mspec Net.MixedInst.ms_outs win specs st1 p)
+                    (Net.MixedModel.mcontent Gather.Model.tok Net.MixedInst.mspec Net.MixedInst.ms_outs win specs st2 p).
+Proof. exact Net.MixedBagsInst.xf_network_bags. Qed.
+
+(* its hypotheses are met by a fan-out of three transformers on one input port *)
+Example C05_transformer_network_example :
+  let win : list (list Net.MixedInst.gmtok) :=
+    [[Net.MixedModel.D (Gather.Model.Tok "0.0" "a"); Net.MixedModel.D (Gather.Model.Tok "0.1" "b"); Net.MixedModel.E COMPLETED]] in
+  let specs := [Net.MixedInst.MXf (fun x => x) (WIn 0); Net.MixedInst.MXf (fun x => x) (SOut 0 0);
+                Net.MixedInst.MXf (fun x => x) (SOut 0 0)] in
+  Net.MixedModel.mwf Gather.Model.tok Net.MixedInst.mspec Net.MixedInst.ms_ins Net.MixedInst.ms_nout win specs /\
+  (forall k, k < length win ->
+     exists d s, nth k win [] = d ++ [Net.MixedModel.E s] /\ Net.MixedModel.term_free_m Gather.Model.tok d) /\
+  (forall sp, In sp specs -> Net.MixedBagsInst.is_xf sp).
+Proof.
+  simpl. split; [split|split].
+  - intros k Hk. destruct k; [reflexivity|]. exfalso. apply (PeanoNat.Nat.nlt_0_r k). apply PeanoNat.Nat.succ_lt_mono. exact Hk.
+  - intros i sp Hsp p Hp. destruct i as [|[|[|i]]]; simpl in Hsp; try (destruct i; discriminate); inversion Hsp; subst;
+      simpl in Hp; destruct Hp as [<-|[]]; simpl.
+    + repeat constructor.
+    + split; [repeat constructor|]. eexists. split; [reflexivity|]. simpl. repeat constructor.
+    + split; [repeat constructor|]. eexists. split; [reflexivity|]. simpl. repeat constructor.
+  - intros k Hk. destruct k; [|exfalso; apply (PeanoNat.Nat.nlt_0_r k); apply PeanoNat.Nat.succ_lt_mono; exact Hk].
+    exists [Net.MixedModel.D (Gather.Model.Tok "0.0" "a"); Net.MixedModel.D (Gather.Model.Tok "0.1" "b")], COMPLETED.
+    split; reflexivity.
+  - intros sp [<-|[<-|[<-|[]]]]; exact I.
+Qed.
 
 (* ---- scatter -> transform -> gather, operationally, with NO hypothesis on the steps: ScatterStep, a one-input
    tag-preserving Transformer f and GatherStep as log machines (GatherStep read off the C01 model).  Input: the list
@@ -326,6 +387,7 @@ Print Assumptions C05_contract_loop_output.
 Print Assumptions C05_contract_dot_flat.
 Print Assumptions C05_contract_cartesian.
 Print Assumptions C05_mixed_bags_partial.
+Print Assumptions C05_transformer_network_bags.
 Print Assumptions C05_scatter_gather_outputs.
 Print Assumptions C05_gather_terminates_only_after_both.
 Print Assumptions C05_log_is_permutation_of_projections.
